@@ -180,7 +180,7 @@ func (r *report) finish(p *sym.Program, wall time.Duration) int {
 	knownDir := filepath.Join(verifDir, "replays", "known", r.opt.prop)
 	var outs []violOut
 	replays := 0
-	knownSeen := map[string]*violOut{}   // id -> first reproduced
+	knownSeen := map[string]*violOut{} // id -> first reproduced
 	knownTried := map[string]int{}
 	newTried := 0
 	exit := 0
@@ -333,37 +333,37 @@ func (r *report) finish(p *sym.Program, wall time.Duration) int {
 	}
 	sort.Strings(incomplete)
 	cov := map[string]interface{}{
-		"states":                        imax(paths, 1),
-		"transitions":                   imax(steps, 1),
-		"traces_validated_against_impl": replays,
-		"samples":                       samples,
-		"exhaustive":                    false,
-		"explanation":                   r.grid.explain,
-		"cases":                         len(r.results),
+		"states":                               imax(paths, 1),
+		"transitions":                          imax(steps, 1),
+		"traces_validated_against_impl":        replays,
+		"samples":                              samples,
+		"exhaustive":                           false,
+		"explanation":                          r.grid.explain,
+		"cases":                                len(r.results),
 		"cases_with_solver_decided_assertions": nontrivial,
-		"bounds":                        r.grid.bounds(r.opt.tier),
-		"outside_bounds":                r.grid.outside,
-		"functions_encoded":             fl,
-		"functions_encoded_count":       len(fl),
-		"outcomes":                      outcomes,
-		"assertions":                    assertSummary,
+		"bounds":                               r.grid.bounds(r.opt.tier),
+		"outside_bounds":                       r.grid.outside,
+		"functions_encoded":                    fl,
+		"functions_encoded_count":              len(fl),
+		"outcomes":                             outcomes,
+		"assertions":                           assertSummary,
 		"queries": map[string]interface{}{"total": stats.Queries, "unsat": stats.Unsat, "sat": stats.Sat, "unknown": stats.Unknown,
 			"error_lines": stats.Errors, "portfolio_fallbacks": stats.Fallback, "by_solver": stats.BySolver,
 			"cross_checked": stats.CrossChecked, "cross_disagreements": stats.CrossDisagree},
-		"solver_time_s":     round3(stats.Time.Seconds()),
-		"ssa_load_s":        round3(r.loadT.Seconds()),
-		"branch_merges":     merges,
-		"merge_aborts":      mergeAborts,
-		"implicit_side_conditions": sideConds,
-		"certificates":      map[string]interface{}{"runs": certs, "issued": certIssued, "events": cEvents, "edges": cEdges, "conflict_pairs": cPairs, "notes": certNotes},
-		"incomplete_cases":  incomplete,
-		"stubs":             sortedKeys(stubs),
-		"known_findings_reproduced": sortedKeys(knownSeen),
+		"solver_time_s":               round3(stats.Time.Seconds()),
+		"ssa_load_s":                  round3(r.loadT.Seconds()),
+		"branch_merges":               merges,
+		"merge_aborts":                mergeAborts,
+		"implicit_side_conditions":    sideConds,
+		"certificates":                map[string]interface{}{"runs": certs, "issued": certIssued, "events": cEvents, "edges": cEdges, "conflict_pairs": cPairs, "notes": certNotes},
+		"incomplete_cases":            incomplete,
+		"stubs":                       sortedKeys(stubs),
+		"known_findings_reproduced":   sortedKeys(knownSeen),
 		"known_findings_not_observed": stale,
 		"known_finding_sites_holding": knownHeld,
-		"module_has_select": p.HasSelect,
-		"translator_validation": map[string]int{"cases_run_natively_and_in_concrete_mode": tvRuns, "observed_values_compared": tvObs, "mismatches": tvMismatch},
-		"engine_selftests":  fmt.Sprintf("%d/%d planted defects detected", selfOK, selfN),
+		"module_has_select":           p.HasSelect,
+		"translator_validation":       map[string]int{"cases_run_natively_and_in_concrete_mode": tvRuns, "observed_values_compared": tvObs, "mismatches": tvMismatch},
+		"engine_selftests":            fmt.Sprintf("%d/%d planted defects detected", selfOK, selfN),
 	}
 	ev := map[string]interface{}{
 		"property_id": r.opt.prop,
